@@ -34,7 +34,11 @@ class FactSet:
                 if mv:
                     for a in sorted(mv, key=len, reverse=True):
                         text = re.sub(re.escape(a) + r"(?![A-Za-z0-9_])", mv[a], text)
-                    v = json.loads(text)
+                # generated items wrapped in an anonymous constant (`const _: () = { statics; impl Interface for T {..} };`, so
+                # that several interfaces fit into one module): the same items, addressed as if they were not wrapped
+                text2 = roles.unwrap_anonymous_consts(text)
+                if mv or text2 != text:
+                    v = json.loads(text2)
             self.crates[k] = hir.Crate(v)
 
     def crate(self, stem):
